@@ -75,6 +75,16 @@ func RunOne(sc *Scenario, seed uint64, o RunOpts) *Outcome {
 		or := "HARNESS.spin"
 		if ctx != nil && ctx.SpinOracle != "" {
 			or = ctx.SpinOracle
+		} else if ctx != nil && ctx.PanicOracle != "" {
+			// no dedicated id: tasks that keep taking steps for ever without any of them
+			// finishing or blocking are calls that never return, like blocked-forever
+			prop := PropOf(ctx.PanicOracle)
+			for _, p := range sc.Props {
+				if p == ctx.Only {
+					prop = p
+				}
+			}
+			or = prop + ".SPIN.livelock"
 		}
 		out.Violation = &simrt.Violation{Oracle: or, Msg: "busy-wait detected: " + s.SpinHit + " (sole runnable task for the spin limit of consecutive steps, no timer pending)", Step: s.Steps()}
 	case mainBlocked(s.Stalled) && !s.Trunc:
